@@ -29,9 +29,11 @@ static std::string op_time(std::istringstream& is)
     return std::to_string((long long)TimeManager::calculateTime(l, Color(side), ply));
 }
 
+#include "ops_eval.h"
+
 static std::string dispatch_time(const std::string& op, std::istringstream& is)
 {
     if (op == "imptable") return op_imptable(is);
     if (op == "time") return op_time(is);
-    return "UNKNOWN-OP " + op;
+    return dispatch_eval(op, is);
 }
